@@ -185,7 +185,7 @@ private:
         u16 z = 0;
 
         u32 current_src = 0, current_dst = 0;
-        u16 counter0 = 0, counter1 = 0, counter2 = 0;
+        u32 counter0 = 0, counter1 = 0, counter2 = 0; // wider than the 16-bit sizes: a size of 0xFFFF must still be reached
         u16 running = 0;
         u16 ahbm_channel = 0;
 
